@@ -49,14 +49,14 @@ Proof.
   rewrite <- marshal_le_parts. apply writable_size_ok. exact H.
 Qed.
 
-(* the value Unmarshal leaves in a reused struct [prev] *)
-Definition after_unmarshal (prev e : levent) : levent :=
+(* the value Unmarshal leaves in a reused struct [prev]; [clear] = false: the code before the repair *)
+Definition after_unmarshal_v (clear : bool) (prev e : levent) : levent :=
   {| le_ts := le_ts e; le_msg := le_msg e;
-     le_flds := match le_flds e with [] => le_flds prev | _ :: _ => le_flds e end |}.
+     le_flds := match le_flds e with [] => if clear then [] else le_flds prev | _ :: _ => le_flds e end |}.
 
-Theorem le_codec prev e : le_ok e -> unmarshal_le prev (marshal_le e) = Ok (after_unmarshal prev e).
+Theorem le_codec_v clear prev e : le_ok e -> unmarshal_le_v clear prev (marshal_le e) = Ok (after_unmarshal_v clear prev e).
 Proof.
-  intros (Ht & Hm & Hf). unfold unmarshal_le, marshal_le, after_unmarshal.
+  intros (Ht & Hm & Hf). unfold unmarshal_le_v, marshal_le, after_unmarshal_v.
   cbn [unmarshal_byte obind]. rewrite to_byte_of_N.
   rewrite u64_roundtrip by apply u64_lt. cbn [obind].
   rewrite bytes_roundtrip by exact Hm. cbn [obind].
@@ -69,23 +69,24 @@ Proof.
     destruct (le_flds e); [congruence|reflexivity].
 Qed.
 
-Corollary le_codec_fresh prev e : le_ok e -> le_flds prev = [] -> unmarshal_le prev (marshal_le e) = Ok e.
+(* the code: whatever the reused struct held, Unmarshal gives the event back *)
+Theorem le_codec prev e : le_ok e -> unmarshal_le prev (marshal_le e) = Ok e.
 Proof.
-  intros H Hp. rewrite le_codec by exact H. f_equal. unfold after_unmarshal. rewrite Hp.
+  intros H. unfold unmarshal_le. rewrite le_codec_v by exact H. f_equal. unfold after_unmarshal_v.
   destruct e as [t m f]. cbn. destruct f; reflexivity.
 Qed.
 
-(* the stale-fields behaviour: a struct that still holds fields keeps them when the record has none *)
-Corollary le_codec_stale prev e : le_ok e -> le_flds e = [] ->
-  unmarshal_le prev (marshal_le e) = Ok {| le_ts := le_ts e; le_msg := le_msg e; le_flds := le_flds prev |}.
-Proof. intros H He. rewrite le_codec by exact H. unfold after_unmarshal. rewrite He. reflexivity. Qed.
+(* before the repair: a struct that still holds fields keeps them when the record has none *)
+Corollary le_codec_stale_old prev e : le_ok e -> le_flds e = [] ->
+  unmarshal_le_v false prev (marshal_le e) = Ok {| le_ts := le_ts e; le_msg := le_msg e; le_flds := le_flds prev |}.
+Proof. intros H He. rewrite le_codec_v by exact H. unfold after_unmarshal_v. rewrite He. reflexivity. Qed.
 
 (* LogEventIterator (Get; Next)* over the records of well-formed events: Next releases the struct, so
    nothing leaks from one event into the next *)
-Theorem lei_read_ok : forall es le, le_flds le = [] -> Forall le_ok es -> lei_read le (map marshal_le es) = Ok es.
+Theorem lei_read_ok : forall es le, Forall le_ok es -> lei_read le (map marshal_le es) = Ok es.
 Proof.
-  induction es as [|e es IH]; intros le Hl Hes; cbn [map lei_read]; [reflexivity|].
+  induction es as [|e es IH]; intros le Hes; cbn [map lei_read]; [reflexivity|].
   inversion Hes as [|? ? He Hes']; subst.
-  rewrite le_codec_fresh by assumption. cbn [obind].
-  rewrite IH by (try reflexivity; assumption). reflexivity.
+  rewrite le_codec by assumption. cbn [obind].
+  rewrite IH by assumption. reflexivity.
 Qed.
